@@ -1,0 +1,452 @@
+//! Verification hook (compiled only with `--cfg stylua_verif`): a cooperative scheduler for the shared state of the CLI.
+//!
+//! Every operation on the two status atomics and every send / receive on the result channel is a *scheduling point*.
+//! When `STYLUA_VERIF_SCHED` is set, a thread arriving at a point waits; once every controlled thread is waiting,
+//! finished or blocked (quiescence), exactly one enabled thread is chosen — by the next entry of the schedule given in
+//! the environment, or by a fixed default once the schedule is exhausted — performs its operation under the scheduler
+//! lock and runs on. Every decision is logged (enabled set, choice, operation, values) to `STYLUA_VERIF_TRACE`.
+#![allow(dead_code)]
+//! An external explorer enumerates schedules. Without the environment variable everything here is a plain pass-through.
+#![allow(dead_code)]
+
+use std::cell::Cell;
+use std::io::Write;
+use std::sync::atomic::Ordering;
+use std::sync::{Condvar, Mutex};
+
+#[derive(Clone, Copy, PartialEq, Eq, Debug)]
+enum Tid {
+    Main,
+    Job(usize),
+    Out,
+}
+impl Tid {
+    fn label(&self) -> String {
+        match self {
+            Tid::Main => "M".into(),
+            Tid::Out => "O".into(),
+            Tid::Job(k) => format!("J{k}"),
+        }
+    }
+    fn order(&self) -> usize {
+        match self {
+            Tid::Main => 0,
+            Tid::Job(k) => 1 + k,
+            Tid::Out => usize::MAX,
+        }
+    }
+}
+
+thread_local! { static TID: Cell<Option<Tid>> = const { Cell::new(None) }; }
+
+#[derive(Clone, Copy, PartialEq, Debug)]
+enum St {
+    Running,
+    /// waiting at a scheduling point; the flag says whether the operation is currently enabled
+    Waiting(bool),
+    /// main thread inside `pool.join()`
+    Joining,
+    Done,
+}
+
+struct State {
+    active: bool,
+    schedule: Vec<usize>,
+    decisions: usize,
+    trace: Vec<String>,
+    trace_path: Option<String>,
+    main: St,
+    out: St,
+    jobs: Vec<Option<St>>, // indexed by job id; None = submitted but not started yet
+    submitted: usize,
+    started: usize,
+    workers: usize,
+    granted: Option<Tid>,
+    last: Option<Tid>,
+    senders: usize,
+    queued_msgs: usize,
+}
+
+static STATE: Mutex<Option<State>> = Mutex::new(None);
+static CV: Condvar = Condvar::new();
+
+fn init_state() -> State {
+    let sched = std::env::var("STYLUA_VERIF_SCHED").ok();
+    let schedule: Vec<usize> = match &sched {
+        Some(s) => s.split(',').filter(|x| !x.is_empty()).map(|x| x.parse().expect("STYLUA_VERIF_SCHED: indices")).collect(),
+        None => vec![],
+    };
+    State {
+        active: sched.is_some(),
+        schedule,
+        decisions: 0,
+        trace: vec![],
+        trace_path: std::env::var("STYLUA_VERIF_TRACE").ok(),
+        main: St::Running,
+        out: St::Running, // the output job is always the first one handed to the pool
+        jobs: vec![],
+        submitted: 0,
+        started: 0,
+        workers: 1,
+        granted: None,
+        last: None,
+        senders: 0,
+        queued_msgs: 0,
+    }
+}
+
+fn lock() -> std::sync::MutexGuard<'static, Option<State>> {
+    let mut g = STATE.lock().unwrap_or_else(|e| e.into_inner());
+    if g.is_none() {
+        *g = Some(init_state());
+    }
+    g
+}
+
+pub fn init() {
+    TID.with(|t| t.set(Some(Tid::Main)));
+    drop(lock());
+    // watchdog: an infeasible or stuck run must never look like a verdict
+    if active() {
+        std::thread::spawn(|| {
+            std::thread::sleep(std::time::Duration::from_secs(30));
+            let mut g = lock();
+            let s = g.as_mut().unwrap();
+            s.trace.push("{\"ev\":\"stuck\"}".to_string());
+            flush(s);
+            std::process::exit(97);
+        });
+    }
+}
+
+fn active() -> bool {
+    lock().as_ref().unwrap().active
+}
+
+/// number of formatter threads of the pool (the pool has one more thread, taken by the output job)
+pub fn set_workers(pool_threads: usize) {
+    lock().as_mut().unwrap().workers = pool_threads.saturating_sub(1).max(1);
+}
+
+/// Called in the main thread right before a formatting job is handed to the pool.
+pub fn submit() -> usize {
+    let mut g = lock();
+    let s = g.as_mut().unwrap();
+    let k = s.submitted;
+    s.submitted += 1;
+    if s.active {
+        s.trace.push(format!("{{\"ev\":\"submit\",\"job\":{k}}}"));
+    }
+    k
+}
+
+pub struct Guard(Option<Tid>);
+impl Drop for Guard {
+    fn drop(&mut self) {
+        if let Some(t) = self.0 {
+            let mut g = lock();
+            let s = g.as_mut().unwrap();
+            match t {
+                Tid::Job(k) => s.jobs[k] = Some(St::Done),
+                Tid::Out => s.out = St::Done,
+                Tid::Main => {}
+            }
+            decide(s);
+            drop(g);
+            CV.notify_all();
+        }
+    }
+}
+pub fn enter_job(k: usize) -> Guard {
+    TID.with(|t| t.set(Some(Tid::Job(k))));
+    let mut g = lock();
+    let s = g.as_mut().unwrap();
+    while s.jobs.len() <= k {
+        s.jobs.push(None);
+    }
+    s.jobs[k] = Some(St::Running);
+    s.started += 1;
+    Guard(Some(Tid::Job(k)))
+}
+pub fn enter_output() -> Guard {
+    TID.with(|t| t.set(Some(Tid::Out)));
+    Guard(Some(Tid::Out))
+}
+
+fn status_mut(s: &mut State, t: Tid) -> &mut St {
+    match t {
+        Tid::Main => &mut s.main,
+        Tid::Out => &mut s.out,
+        Tid::Job(k) => s.jobs[k].as_mut().expect("job status"),
+    }
+}
+
+/// If the system is quiescent and nobody holds a grant, pick the next thread.
+fn decide(s: &mut State) {
+    if !s.active || s.granted.is_some() {
+        return;
+    }
+    // a job that has been submitted but not started will start as soon as a worker is idle
+    let finished = s.jobs.iter().filter(|j| **j == Some(St::Done)).count();
+    let busy = s.started - finished;
+    let job_about_to_start = s.submitted > s.started && busy < s.workers;
+    let someone_running = s.main == St::Running || s.out == St::Running || s.jobs.iter().any(|j| *j == Some(St::Running)) || job_about_to_start;
+    if someone_running {
+        return;
+    }
+    // main leaves `pool.join()` once every job and the output thread are done
+    if s.main == St::Joining && s.out == St::Done && s.started == s.submitted && s.jobs.iter().all(|j| *j == Some(St::Done)) {
+        s.main = St::Running;
+        return;
+    }
+    let mut enabled: Vec<Tid> = vec![];
+    if s.main == St::Waiting(true) {
+        enabled.push(Tid::Main);
+    }
+    for (k, j) in s.jobs.iter().enumerate() {
+        if *j == Some(St::Waiting(true)) {
+            enabled.push(Tid::Job(k));
+        }
+    }
+    if s.out == St::Waiting(true) {
+        enabled.push(Tid::Out);
+    }
+    if enabled.is_empty() {
+        return;
+    }
+    // canonical order: the thread that ran last first (continuing it is not a preemption), then M, J0, J1, ..., O
+    enabled.sort_by_key(|t| if Some(*t) == s.last { (0, 0) } else { (1, t.order()) });
+    let idx = if s.decisions < s.schedule.len() { s.schedule[s.decisions] } else { 0 };
+    if idx >= enabled.len() {
+        s.trace.push(format!("{{\"ev\":\"infeasible\",\"decision\":{},\"choice\":{},\"enabled\":{}}}", s.decisions, idx, enabled.len()));
+        flush(s);
+        std::process::exit(98);
+    }
+    let chosen = enabled[idx];
+    let labels: Vec<String> = enabled.iter().map(|t| format!("\"{}\"", t.label())).collect();
+    s.trace.push(format!("{{\"d\":{},\"enabled\":[{}],\"choice\":{},\"chosen\":\"{}\"", s.decisions, labels.join(","), idx, chosen.label()));
+    s.decisions += 1;
+    s.granted = Some(chosen);
+}
+
+/// Scheduling point. `enabled` tells whether the operation can be performed now; `op` performs it and describes it.
+fn point<R>(what: &str, enabled: impl Fn(&State) -> bool, op: impl FnOnce(&mut State) -> (R, String)) -> R {
+    let tid = TID.with(|t| t.get());
+    let mut g = lock();
+    let Some(tid) = tid.filter(|_| g.as_ref().unwrap().active) else {
+        // uncontrolled thread or inactive scheduler: plain pass-through (retry while not enabled)
+        loop {
+            if enabled(g.as_ref().unwrap()) {
+                let (r, _) = op(g.as_mut().unwrap());
+                return r;
+            }
+            drop(g);
+            std::thread::yield_now();
+            g = lock();
+        }
+    };
+    loop {
+        {
+            let s = g.as_mut().unwrap();
+            if s.granted == Some(tid) {
+                let (r, desc) = op(s);
+                let line = s.trace.pop().unwrap_or_default();
+                s.trace.push(format!("{line},\"op\":\"{what}\",{desc}}}"));
+                s.granted = None;
+                s.last = Some(tid);
+                *status_mut(s, tid) = St::Running;
+                drop(g);
+                CV.notify_all();
+                return r;
+            }
+            let en = enabled(s);
+            *status_mut(s, tid) = St::Waiting(en);
+            // every waiting thread re-evaluates its enabledness before a decision is taken
+            decide(s);
+            if s.granted.is_some() {
+                CV.notify_all();
+                if s.granted == Some(tid) {
+                    continue;
+                }
+            }
+        }
+        let (ng, _) = CV.wait_timeout(g, std::time::Duration::from_millis(20)).unwrap_or_else(|e| e.into_inner());
+        g = ng;
+    }
+}
+
+fn flush(s: &mut State) {
+    if let Some(p) = &s.trace_path {
+        if let Ok(mut f) = std::fs::File::create(p) {
+            for l in &s.trace {
+                let _ = writeln!(f, "{l}");
+            }
+        }
+    }
+}
+
+pub fn main_done() {
+    point("main_done", |_| true, |_| ((), "\"x\":0".to_string()));
+    let mut g = lock();
+    let s = g.as_mut().unwrap();
+    if s.active {
+        s.main = St::Joining;
+        decide(s);
+    }
+    drop(g);
+    CV.notify_all();
+}
+
+pub fn finish(code: i32) {
+    let mut g = lock();
+    let s = g.as_mut().unwrap();
+    if s.active {
+        s.trace.push(format!("{{\"ev\":\"exit\",\"code\":{code}}}"));
+        flush(s);
+    }
+}
+
+macro_rules! sched_atomic {
+    ($name:ident, $inner:ty, $prim:ty) => {
+        pub struct $name {
+            name: &'static str,
+            inner: $inner,
+        }
+        impl $name {
+            pub const fn new(name: &'static str, v: $prim) -> Self {
+                Self { name, inner: <$inner>::new(v) }
+            }
+            pub fn load(&self, o: Ordering) -> $prim {
+                point("load", |_| true, |_| {
+                    let v = self.inner.load(o);
+                    (v, format!("\"var\":\"{}\",\"val\":{v}", self.name))
+                })
+            }
+            pub fn store(&self, v: $prim, o: Ordering) {
+                point("store", |_| true, |_| {
+                    let b = self.inner.load(Ordering::SeqCst);
+                    self.inner.store(v, o);
+                    ((), format!("\"var\":\"{}\",\"before\":{b},\"val\":{v}", self.name))
+                })
+            }
+            pub fn swap(&self, v: $prim, o: Ordering) -> $prim {
+                point("swap", |_| true, |_| {
+                    let b = self.inner.swap(v, o);
+                    (b, format!("\"var\":\"{}\",\"before\":{b},\"val\":{v}", self.name))
+                })
+            }
+            pub fn fetch_add(&self, v: $prim, o: Ordering) -> $prim {
+                point("fetch_add", |_| true, |_| {
+                    let b = self.inner.fetch_add(v, o);
+                    (b, format!("\"var\":\"{}\",\"before\":{b},\"val\":{v}", self.name))
+                })
+            }
+            pub fn fetch_sub(&self, v: $prim, o: Ordering) -> $prim {
+                point("fetch_sub", |_| true, |_| {
+                    let b = self.inner.fetch_sub(v, o);
+                    (b, format!("\"var\":\"{}\",\"before\":{b},\"val\":{v}", self.name))
+                })
+            }
+            pub fn fetch_max(&self, v: $prim, o: Ordering) -> $prim {
+                point("fetch_max", |_| true, |_| {
+                    let b = self.inner.fetch_max(v, o);
+                    (b, format!("\"var\":\"{}\",\"before\":{b},\"val\":{v}", self.name))
+                })
+            }
+            pub fn fetch_min(&self, v: $prim, o: Ordering) -> $prim {
+                point("fetch_min", |_| true, |_| {
+                    let b = self.inner.fetch_min(v, o);
+                    (b, format!("\"var\":\"{}\",\"before\":{b},\"val\":{v}", self.name))
+                })
+            }
+            pub fn fetch_or(&self, v: $prim, o: Ordering) -> $prim {
+                point("fetch_or", |_| true, |_| {
+                    let b = self.inner.fetch_or(v, o);
+                    (b, format!("\"var\":\"{}\",\"before\":{b},\"val\":{v}", self.name))
+                })
+            }
+            pub fn compare_exchange(&self, cur: $prim, new: $prim, s: Ordering, f: Ordering) -> Result<$prim, $prim> {
+                point("compare_exchange", |_| true, |_| {
+                    let r = self.inner.compare_exchange(cur, new, s, f);
+                    (r, format!("\"var\":\"{}\",\"expected\":{cur},\"val\":{new},\"ok\":{}", self.name, r.is_ok()))
+                })
+            }
+            pub fn compare_exchange_weak(&self, cur: $prim, new: $prim, s: Ordering, f: Ordering) -> Result<$prim, $prim> {
+                self.compare_exchange(cur, new, s, f)
+            }
+            pub fn fetch_update<F: FnMut($prim) -> Option<$prim>>(&self, s: Ordering, f: Ordering, mut func: F) -> Result<$prim, $prim> {
+                // as in std: a load followed by compare-exchange attempts, each of them a scheduling point
+                let mut prev = self.load(f);
+                while let Some(next) = func(prev) {
+                    match self.compare_exchange(prev, next, s, f) {
+                        x @ Ok(_) => return x,
+                        Err(p) => prev = p,
+                    }
+                }
+                Err(prev)
+            }
+        }
+    };
+}
+sched_atomic!(SAtomicI32, std::sync::atomic::AtomicI32, i32);
+sched_atomic!(SAtomicU32, std::sync::atomic::AtomicU32, u32);
+
+pub struct STx<T>(Option<crossbeam_channel::Sender<T>>);
+impl<T> Clone for STx<T> {
+    fn clone(&self) -> Self {
+        lock().as_mut().unwrap().senders += 1;
+        STx(self.0.clone())
+    }
+}
+impl<T> Drop for STx<T> {
+    fn drop(&mut self) {
+        // drop the real sender first so that "no senders left" below is true for the receiver as well
+        self.0.take();
+        let mut g = lock();
+        let s = g.as_mut().unwrap();
+        s.senders = s.senders.saturating_sub(1);
+        // the output thread may be waiting for exactly this
+        if s.out == St::Waiting(false) && s.senders == 0 {
+            s.out = St::Waiting(true);
+        }
+        decide(s);
+        drop(g);
+        CV.notify_all();
+    }
+}
+impl<T> STx<T> {
+    pub fn send(&self, v: T) -> Result<(), crossbeam_channel::SendError<T>> {
+        if !active() {
+            return self.0.as_ref().unwrap().send(v);
+        }
+        let mut v = Some(v);
+        point("send", |_| true, |s| {
+            let r = self.0.as_ref().unwrap().send(v.take().unwrap());
+            s.queued_msgs += 1;
+            if s.out == St::Waiting(false) {
+                s.out = St::Waiting(true);
+            }
+            (r, "\"x\":0".to_string())
+        })
+    }
+}
+pub struct SRx<T>(crossbeam_channel::Receiver<T>);
+impl<T> Iterator for SRx<T> {
+    type Item = T;
+    fn next(&mut self) -> Option<T> {
+        if !active() {
+            return self.0.recv().ok();
+        }
+        point("recv", |s| s.queued_msgs > 0 || s.senders == 0, |s| match self.0.try_recv() {
+            Ok(v) => {
+                s.queued_msgs -= 1;
+                (Some(v), "\"got\":1".to_string())
+            }
+            Err(_) => (None, "\"got\":0".to_string()),
+        })
+    }
+}
+pub fn wrap_channel<T>(tx: crossbeam_channel::Sender<T>, rx: crossbeam_channel::Receiver<T>) -> (STx<T>, SRx<T>) {
+    lock().as_mut().unwrap().senders += 1;
+    (STx(Some(tx)), SRx(rx))
+}
